@@ -286,7 +286,7 @@ func mdFitsFormat(m map[string]string) bool {
 func genPartitionLog(r *Rng, nOps, idUniverse, nvec int, maxLive int) []pOp {
 	var ops []pOp
 	mds := []string{"-", "-", "-", "a=1", "a=2", "a=1,b=x", "b=y", "k=v,z=w", "long=" + strings.Repeat("x", 1+r.Intn(40)),
-		"-", "a=3,c=1", "b=q", "-",
+		"-", "a=3,c=1", "b=q", "-", "a=", "b=,c=2", "a=,b=", "=emptykey", // empty values (and an empty key) are values like any other: an update with k="" sets k to ""
 		strings.Repeat("K", 255) + "=fits", strings.Repeat("K", 256) + "=refused"}
 	if r.Intn(6) == 0 { // now and then a value at / beyond the 16-bit length field
 		mds = append(mds, "big="+strings.Repeat("v", 65535), "big="+strings.Repeat("v", 65536))
